@@ -258,7 +258,7 @@ func TestC16(t *testing.T) {
 		})
 	}
 	// ---- copies and conversions (C04)
-	for _, op := range []string{"Clone", "Materialize", "SafeT", "pkgT", "CopyFresh", "ToMat64", "Native"} {
+	for _, op := range []string{"Clone", "Materialize", "SafeT", "pkgT", "CopyFresh", "CopyFlatten", "ToMat64", "Native"} {
 		op := op
 		cell(t, "C16", "C04.copy", "copy/"+op, nCases(60, 1500), func(rt *rapid.T) Case {
 			d := rapid.SampledFrom(c04DTs).Draw(rt, "dt")
@@ -280,7 +280,7 @@ func TestC16(t *testing.T) {
 		})
 	}
 	// ---- whole-tensor writes through views of column-major tensors (C04)
-	for _, w := range []string{"Memset", "Zero", "SetAtSweep", "UnsafeNeg", "UnsafeAdd", "CopyInto"} {
+	for _, w := range []string{"Memset", "Zero", "SetAtSweep", "UnsafeNeg", "UnsafeAdd", "CopyInto", "CopyIntoFlat"} {
 		w := w
 		cell(t, "C16", "C04.write", "write/"+w, nCases(60, 1500), func(rt *rapid.T) Case {
 			d := rapid.SampledFrom([]DT{dtInt8, dtInt16, dtF32, dtF64}).Draw(rt, "dt")
